@@ -81,6 +81,27 @@ def table_errors(cls, carve=()):
         if d.attr_name in seen_attr:
             errs.append("row %d: attribute %s declared twice (row %d)" % (i, d.attr_name, seen_attr[d.attr_name]))
         seen_attr.setdefault(d.attr_name, i)
+    # every annotated (= declared) attribute has a row; list-annotated attributes are lists on a fresh instance; no default is a class
+    ann = {}
+    for kls in reversed(cls.__mro__):
+        ann.update(getattr(kls, "__annotations__", {}))
+    try:
+        fresh = cls()
+    except Exception as ex:
+        errs.append("cannot be instantiated without arguments: %r" % (ex,))
+        return errs
+    for attr, t in ann.items():
+        if attr.startswith("_") or attr in ("avp_def", "code", "name", "header", "additional_avps"):
+            continue
+        ts = (t if isinstance(t, str) else getattr(t, "__name__", str(t))).replace(" ", "")
+        if attr not in seen_attr:
+            errs.append("attribute %s (%s) is declared but has no AVP definition" % (attr, ts))
+            continue
+        cur = getattr(fresh, attr, None)
+        if ts.startswith("list[") and not isinstance(cur, list):
+            errs.append("attribute %s is declared %s but is not a list on a fresh instance (repeated AVPs overwrite each other on decode)" % (attr, ts))
+        if isinstance(cur, type):
+            errs.append("attribute %s defaults to the class %s itself" % (attr, cur.__name__))
     return errs
 
 
